@@ -200,6 +200,8 @@ pub struct Ctx {
     pub seed: u64,
     pub driver: String,
     pub work: std::path::PathBuf,
+    /// seconds one group may use (the property's budget divided by its number of groups)
+    pub group_budget_s: u64,
 }
 
 /// A correspondence group: one kind of case, defined entirely by a text line that both the
@@ -286,6 +288,8 @@ pub struct GroupResult {
     pub oracle_failures: Vec<serde_json::Value>,
     /// failures of timing-sensitive groups that did not show again on re-runs
     pub unreproduced: Vec<serde_json::Value>,
+    /// generated cases not run because the group's time budget was used up
+    pub dropped_by_budget: usize,
     pub max_len: usize,
     pub wall_s: f64,
 }
@@ -348,8 +352,17 @@ fn shrink_line(g: &dyn Group, ctx: &Ctx, line: &str, want_oracle: bool) -> Strin
     cur
 }
 
+/// time budget of one group: cases are processed in chunks (implementation, then model, then comparison); when the
+/// budget is used up the remaining generated cases are dropped and counted in `dropped_by_budget` — a run never ends
+/// in an external time-out, and what was covered is what the evidence says.
+fn group_budget(ctx: &Ctx) -> std::time::Duration {
+    let secs = std::env::var("VERIF_GROUP_BUDGET_S").ok().and_then(|s| s.parse().ok()).unwrap_or(ctx.group_budget_s);
+    std::time::Duration::from_secs(secs)
+}
+
 pub fn run_group(g: &dyn Group, ctx: &Ctx, rng: &mut Rng, corpus: &[String], only: Option<&[String]>) -> GroupResult {
     let t0 = std::time::Instant::now();
+    let budget = group_budget(ctx);
     let mut lines: Vec<String> = Vec::new();
     if let Some(only) = only {
         lines.extend(only.iter().cloned());
@@ -359,68 +372,87 @@ pub fn run_group(g: &dyn Group, ctx: &Ctx, rng: &mut Rng, corpus: &[String], onl
         lines.extend(corpus.iter().filter(|l| l.starts_with(&pfx) || l.starts_with(g.name())).cloned());
         lines.extend(g.generate(ctx, rng));
     }
-    let impl_out = run_lines(g, ctx, &lines);
-    let cmp_idx: Vec<usize> = (0..lines.len()).filter(|i| g.compare_with_model(&lines[*i]) && !g.inconclusive(&impl_out[*i])).collect();
-    let cmp_lines: Vec<String> = cmp_idx.iter().map(|i| g.driver_line_with(&lines[*i], &impl_out[*i])).collect();
     let mut res = GroupResult { name: g.name().into(), rule: g.rule().into(), ..Default::default() };
-    let model_out = match run_driver(&ctx.driver, &cmp_lines) {
-        Ok(m) => m,
-        Err(e) => {
-            res.disagreements.push(serde_json::json!({"line": "<driver>", "impl": "", "model": e}));
-            vec![String::from("<driver-error>"); cmp_lines.len()]
-        }
-    };
-    res.evaluations = lines.len();
-    res.compared = cmp_lines.len();
     let mut distinct = BTreeSet::new();
-    for (i, l) in lines.iter().enumerate() {
-        res.max_len = res.max_len.max(l.len());
-        if g.inconclusive(&impl_out[i]) {
-            *res.histogram.entry("inconclusive".into()).or_default() += 1;
-            continue;
-        }
-        *res.histogram.entry(g.classify(l, &impl_out[i])).or_default() += 1;
-        if g.nontrivial(l, &impl_out[i]) {
-            distinct.insert(l.clone());
-        }
-        if let Some((key, what)) = g.oracle(ctx, l, &impl_out[i]) {
-            if !reconfirm(g, ctx, l, true) {
-                res.unreproduced.push(serde_json::json!({"group": g.name(), "line": l, "impl": impl_out[i], "key": key, "what": what}));
+    // adaptive chunks: start small, grow while a chunk takes less than a few seconds
+    let mut chunk = if g.parallel() { 512 } else { 8 };
+    let max_chunk = if g.parallel() { 65536 } else { 64 };
+    let mut done = 0usize;
+    let mut sampled: Vec<(String, String)> = Vec::new();
+    while done < lines.len() {
+        let tc = std::time::Instant::now();
+        let part = &lines[done..(done + chunk).min(lines.len())];
+        let impl_out = run_lines(g, ctx, part);
+        let cmp_idx: Vec<usize> = (0..part.len()).filter(|i| g.compare_with_model(&part[*i]) && !g.inconclusive(&impl_out[*i])).collect();
+        let cmp_lines: Vec<String> = cmp_idx.iter().map(|i| g.driver_line_with(&part[*i], &impl_out[*i])).collect();
+        let model_out = match run_driver(&ctx.driver, &cmp_lines) {
+            Ok(m) => m,
+            Err(e) => {
+                res.disagreements.push(serde_json::json!({"line": "<driver>", "impl": "", "model": e}));
+                vec![String::from("<driver-error>"); cmp_lines.len()]
+            }
+        };
+        res.evaluations += part.len();
+        res.compared += cmp_lines.len();
+        for (i, l) in part.iter().enumerate() {
+            res.max_len = res.max_len.max(l.len());
+            if g.inconclusive(&impl_out[i]) {
+                *res.histogram.entry("inconclusive".into()).or_default() += 1;
                 continue;
             }
-            if res.oracle_failures.len() < 3 {
-                let small = shrink_line(g, ctx, l, true);
-                let io = guarded(|| g.run_impl(ctx, &small));
-                let (key, what) = g.oracle(ctx, &small, &io).unwrap_or((key, what));
-                res.oracle_failures.push(serde_json::json!({"group": g.name(), "line": small, "original_line": l, "impl": io, "key": key, "what": what}));
-            } else {
-                res.oracle_failures.push(serde_json::json!({"group": g.name(), "line": l, "impl": impl_out[i], "key": key, "what": what}));
+            *res.histogram.entry(g.classify(l, &impl_out[i])).or_default() += 1;
+            if g.nontrivial(l, &impl_out[i]) {
+                distinct.insert(l.clone());
+            }
+            if let Some((key, what)) = g.oracle(ctx, l, &impl_out[i]) {
+                if !reconfirm(g, ctx, l, true) {
+                    res.unreproduced.push(serde_json::json!({"group": g.name(), "line": l, "impl": impl_out[i], "key": key, "what": what}));
+                    continue;
+                }
+                if res.oracle_failures.len() < 3 {
+                    let small = shrink_line(g, ctx, l, true);
+                    let io = guarded(|| g.run_impl(ctx, &small));
+                    let (key, what) = g.oracle(ctx, &small, &io).unwrap_or((key, what));
+                    res.oracle_failures.push(serde_json::json!({"group": g.name(), "line": small, "original_line": l, "impl": io, "key": key, "what": what}));
+                } else {
+                    res.oracle_failures.push(serde_json::json!({"group": g.name(), "line": l, "impl": impl_out[i], "key": key, "what": what}));
+                }
             }
         }
-    }
-    for (j, i) in cmp_idx.iter().enumerate() {
-        let (a, b) = (g.canon(&impl_out[*i]), g.canon(&model_out[j]));
-        if a != b {
-            if !reconfirm(g, ctx, &lines[*i], false) {
-                res.unreproduced.push(serde_json::json!({"group": g.name(), "line": lines[*i], "impl": a, "model": b}));
-                continue;
+        for (j, i) in cmp_idx.iter().enumerate() {
+            let (a, b) = (g.canon(&impl_out[*i]), g.canon(&model_out[j]));
+            if a != b {
+                if !reconfirm(g, ctx, &part[*i], false) {
+                    res.unreproduced.push(serde_json::json!({"group": g.name(), "line": part[*i], "impl": a, "model": b}));
+                    continue;
+                }
+                if res.disagreements.len() < 3 {
+                    let small = shrink_line(g, ctx, &part[*i], false);
+                    let io = guarded(|| g.run_impl(ctx, &small));
+                    let mo = run_driver(&ctx.driver, &[g.driver_line_with(&small, &io)]).map(|v| v[0].clone()).unwrap_or_default();
+                    res.disagreements.push(serde_json::json!({"group": g.name(), "line": small, "original_line": part[*i], "impl": io, "model": mo}));
+                } else {
+                    res.disagreements.push(serde_json::json!({"group": g.name(), "line": part[*i], "impl": a, "model": b}));
+                }
             }
-            if res.disagreements.len() < 3 {
-                let small = shrink_line(g, ctx, &lines[*i], false);
-                let io = guarded(|| g.run_impl(ctx, &small));
-                let mo = run_driver(&ctx.driver, &[g.driver_line_with(&small, &io)]).map(|v| v[0].clone()).unwrap_or_default();
-                res.disagreements.push(serde_json::json!({"group": g.name(), "line": small, "original_line": lines[*i], "impl": io, "model": mo}));
-            } else {
-                res.disagreements.push(serde_json::json!({"group": g.name(), "line": lines[*i], "impl": a, "model": b}));
-            }
+        }
+        // a few samples spread over the run
+        if sampled.len() < 4 {
+            sampled.push((part[0].clone(), impl_out[0].clone()));
+        }
+        done += part.len();
+        if t0.elapsed() > budget && done < lines.len() {
+            res.dropped_by_budget = lines.len() - done;
+            break;
+        }
+        if tc.elapsed().as_secs_f64() < 4.0 && chunk < max_chunk {
+            chunk *= 4;
         }
     }
     res.distinct_nontrivial = distinct.len();
-    // a few samples spread over the run
-    let step = (lines.len() / 4).max(1);
-    for i in (0..lines.len()).step_by(step).take(4) {
+    for (l, o) in sampled {
         let trunc = |s: &str| -> String { if s.len() > 400 { format!("{}…({} chars)", &s[..400], s.len()) } else { s.to_owned() } };
-        res.samples.push(serde_json::json!({"line": trunc(&lines[i]), "impl": trunc(&impl_out[i])}));
+        res.samples.push(serde_json::json!({"line": trunc(&l), "impl": trunc(&o)}));
     }
     res.wall_s = t0.elapsed().as_secs_f64();
     res
@@ -431,7 +463,7 @@ impl GroupResult {
         serde_json::json!({
             "group": self.name, "rule": self.rule, "evaluations": self.evaluations, "compared_with_model": self.compared,
             "distinct_nontrivial": self.distinct_nontrivial, "histogram": self.histogram, "samples": self.samples,
-            "disagreements": self.disagreements, "oracle_failures": self.oracle_failures, "unreproduced_timing_failures": self.unreproduced, "max_line_len": self.max_len,
+            "disagreements": self.disagreements, "oracle_failures": self.oracle_failures, "unreproduced_timing_failures": self.unreproduced, "dropped_by_budget": self.dropped_by_budget, "max_line_len": self.max_len,
             "wall_s": self.wall_s,
         })
     }
